@@ -9,9 +9,11 @@
 use std::future::{ready, Ready};
 pub mod tracing {
     macro_rules! trace { ($($t:tt)*) => { () } }
-    macro_rules! warn_ { ($($t:tt)*) => { () } }
     macro_rules! debug { ($($t:tt)*) => { () } }
-    pub(crate) use {trace, warn_ as warn, debug};
+    macro_rules! info { ($($t:tt)*) => { () } }
+    macro_rules! warn_ { ($($t:tt)*) => { () } }
+    macro_rules! error { ($($t:tt)*) => { () } }
+    pub(crate) use {trace, debug, info, warn_ as warn, error};
 }
 pub type IoResult<T> = Result<T, IoError>;
 /// stands for std::io::Error (the code names it by its full path: see unit.json `replace`)
